@@ -460,6 +460,8 @@ def exCallTok : Bytes := [65, 81, 73, 67, 65, 103, 73, 67, 65, 103, 73, 67, 65, 
 def exFlipTok : Bytes := [66, 103, 69, 66, 65, 81, 69, 66, 65, 81, 69, 66, 65, 81, 69, 66, 65, 81, 69, 66, 65, 81, 69, 66, 65, 81, 69, 66, 65, 81, 69, 66, 65, 81, 107, 74, 67, 81, 107, 74, 67, 81, 107, 74, 67, 81, 107, 74, 67, 81, 107, 74, 67, 81, 103, 61]
 /-- the cursor with version byte 7: "BwEBAQEBAQEBAQEBAQEBAQEBAQEBAQEBAQkJCQkJCQkJCQkJCQkJCQk=" -/
 def exV7Tok : Bytes := [66, 119, 69, 66, 65, 81, 69, 66, 65, 81, 69, 66, 65, 81, 69, 66, 65, 81, 69, 66, 65, 81, 69, 66, 65, 81, 69, 66, 65, 81, 69, 66, 65, 81, 107, 74, 67, 81, 107, 74, 67, 81, 107, 74, 67, 81, 107, 74, 67, 81, 107, 74, 67, 81, 107, 61]
+/-- the call token's envelope with its version byte rewritten to 6: "BgICAgICAgICAgICAgICAgICAgICAgICAgkJCQkJCQkJCQkJCQkJCQk=" -/
+def exCallAsCursorTok : Bytes := [66, 103, 73, 67, 65, 103, 73, 67, 65, 103, 73, 67, 65, 103, 73, 67, 65, 103, 73, 67, 65, 103, 73, 67, 65, 103, 73, 67, 65, 103, 73, 67, 65, 103, 107, 74, 67, 81, 107, 74, 67, 81, 107, 74, 67, 81, 107, 74, 67, 81, 107, 74, 67, 81, 107, 61]
 def exReq : Req := ⟨anon, [109], some exCursorTok, some exCallTok, false, none, 130000⟩
 
 example : (exchange exTbl exInst exReq).2.err = none ∧
